@@ -2,7 +2,6 @@
 package syncutils
 
 import (
-	"fmt"
 	"math/rand"
 	"regexp"
 	"strconv"
@@ -123,9 +122,28 @@ func (s *starvingSUT) RandomStimulus(r *rand.Rand) core.Ev {
 		}
 	}
 	if len(idle) == 0 {
-		panic(fmt.Sprint("all threads blocked"))
+		panic("all threads blocked")
 	}
-	return core.Ev{"op": core.Pick(r, "RLock", "Lock", "RUnlock", "Unlock", "RUnlock", "Unlock"), "t": idle[r.Intn(len(idle))]}
+	t := idle[r.Intn(len(idle))]
+	mm := smRe.FindStringSubmatch(normalize(s.m.String()))
+	writer, readers := mm[1] == "true", mm[2] != "0"
+	if r.Intn(40) == 0 { // rare misuse (ends the trace: the mutex is unusable after its panic)
+		return core.Ev{"op": core.Pick(r, "RUnlock", "Unlock"), "t": t}
+	}
+	var ops []string
+	if writer {
+		ops = []string{"Unlock", "Unlock", "Unlock"}
+	}
+	if readers {
+		ops = append(ops, "RUnlock", "RUnlock")
+	}
+	if len(idle) > 1 {
+		ops = append(ops, "RLock", "Lock")
+	}
+	if len(ops) == 0 {
+		ops = []string{"RLock"}
+	}
+	return core.Ev{"op": ops[r.Intn(len(ops))], "t": t}
 }
 
 // drain releases the old mutex until no harness thread is parked in it any more, so abandoned
